@@ -465,6 +465,12 @@ pub fn run(ctx: &Ctx) {
             let prod: Scalar = rs.iter().product();
             let sum_v: Scalar = rs.iter().copied().sum();
             let prod_v: Scalar = rs.iter().copied().product();
+            // iterators with an inexact size hint
+            let sum_f: Scalar = rs.iter().filter(|_| std::hint::black_box(true)).sum();
+            let prod_f: Scalar = rs.iter().filter(|_| std::hint::black_box(true)).product();
+            if canon_check(&sum_f, &msum).is_err() || canon_check(&prod_f, &mprod).is_err() {
+                ctx.violation("sc.sum", "Sum / Product over a filtered iterator differs", json!({"kind": "seq", "len": s.len(), "seq": &s[..s.len().min(8)]}));
+            }
             if canon_check(&sum, &msum).is_err() || canon_check(&sum_v, &msum).is_err() {
                 ctx.violation("sc.sum", "Sum differs", json!({"kind": "seq", "len": s.len(), "seq": &s[..s.len().min(8)]}));
             }
